@@ -3,7 +3,6 @@ package parser
 import (
 	"bytes"
 
-	"github.com/cedar-policy/cedar-go/types"
 	"github.com/cedar-policy/cedar-go/x/exp/ast"
 )
 
@@ -170,15 +169,6 @@ func (n primaryPrecedenceNode) precedenceLevel() nodePrecedenceLevel {
 type NodeValue struct {
 	ast.NodeValue
 	primaryPrecedenceNode
-}
-
-// A negative integer literal is written with a leading '-', which the grammar reads at the unary level, not as a
-// primary: as the receiver of an attribute access or method call it needs parentheses, `(-1).isEmpty()`.
-func (n NodeValue) precedenceLevel() nodePrecedenceLevel {
-	if l, ok := n.Value.(types.Long); ok && l < 0 {
-		return unaryPrecedence
-	}
-	return primaryPrecedence
 }
 
 type NodeTypeRecord struct {
